@@ -929,7 +929,17 @@ class PGPUID(ParentRef):
 class PGPMessage(Armorable, PGPObject):
     @staticmethod
     def dash_unescape(text):
+        if isinstance(text, (bytes, bytearray)):
+            return re.subn(br'^- ', b'', text, flags=re.MULTILINE)[0]
         return re.subn(r'^- ', '', text, flags=re.MULTILINE)[0]
+
+    @staticmethod
+    def _cleartext_str(octets):
+        # text of another producer that is not UTF-8 is shown as Latin-1, which cannot fail; the octets stay as they are
+        try:
+            return bytes(octets).decode('utf-8')
+        except UnicodeDecodeError:
+            return bytes(octets).decode('latin-1')
 
     @staticmethod
     def dash_escape(text):
@@ -985,7 +995,7 @@ class PGPMessage(Armorable, PGPObject):
     def message(self):
         """The message contents"""
         if self.type == 'cleartext':
-            return self.bytes_to_text(self._message)
+            return self._cleartext_str(self._message)
 
         if self.type == 'literal':
             if self._message.format == 't':
@@ -1008,7 +1018,12 @@ class PGPMessage(Armorable, PGPObject):
         """
         if self.type != 'cleartext':
             return None
-        return re.sub(r'[ \t\r]+(?=\n|\Z)', '', self.message)
+        signed = re.sub(br'[ \t\r]+(?=\n|\Z)', b'', bytes(self._message))
+        try:
+            return signed.decode('utf-8')
+        except UnicodeDecodeError:
+            # not UTF-8: the signature is over these octets, not over a transcription of them
+            return signed
 
     @property
     def signatures(self):
@@ -1079,7 +1094,7 @@ class PGPMessage(Armorable, PGPObject):
             hhdr = 'Hash: {hashes:s}\n'.format(hashes=','.join(sorted(hashes))) if hashes else ''
 
             return tmpl.format(hhdr=hhdr,
-                               cleartext=self.dash_escape(self.bytes_to_text(self._message)),
+                               cleartext=self.dash_escape(self._cleartext_str(self._message)),
                                signature=super(PGPMessage, self).__str__())
 
         return super(PGPMessage, self).__str__()
